@@ -34,7 +34,7 @@ Definition named_pairs (old new : pl_content) : list (Z * Z) :=
     (pl_users_default old, pl_users_default new) ].
 
 Definition event_pairs (old new : pl_content) : list (Z * Z) :=
-  map (fun ty => (pl_event_level old ty false, pl_event_level new ty false))
+  map (fun ty => (pl_event_entry old ty, pl_event_entry new ty))
       (map fst (pl_events new) ++ map fst (pl_events old)).
 
 Definition check_event_levels (L : Z) (old new : pl_content) : bool :=
@@ -307,7 +307,8 @@ Definition decide_member (a : auth_input) : verdict :=
       | None => VNotAllowed
       | Some c =>
           if negb (bytes_eqb (c_room c) (ai_room a)) then VNotAllowed else
-          let dom := match m_mapping m with
+          (* mxid_mapping stands in for the sender in the pseudo-ID room version only *)
+          let dom := match (if vf_pseudo_ids (ai_flags a) then m_mapping m else None) with
                      | Some md => md
                      | None => ai_sender_domain a
                      end in
